@@ -170,9 +170,17 @@ def _bool_eval(e: ast.AST, env: Dict[str, bool]):
     raise KeyError(U(e))
 
 
+def _meth(prog: Program, c, name: str) -> FuncInfo:
+    """the method as class c runs it - its own or an inherited one (a constructor / solve skeleton pulled up into a shared base)"""
+    m = prog.lookup_method(c, name)
+    if m is None:
+        raise AnalysisError(f"{c.name}.{name} has vanished")
+    return m
+
+
 def lu(prog: Program, rep, x: ExcFlow) -> None:
     c = prog.cls("pygradflow.linear_solver.lu_solver.LUSolver")
-    init = c.methods["__init__"]
+    init = _meth(prog, c, "__init__")
     fi = facts_for(init)
     mp = [p for p in init.params if p != "self"][0]
     calls = [n for n in own_nodes(init.node) if isinstance(n, ast.Call) and (dotted(n.func) or "").endswith("splu")]
@@ -251,7 +259,7 @@ def lu(prog: Program, rep, x: ExcFlow) -> None:
                           f"factorised matrix is the {'transpose' if kind_of(a) == 'transposed' else 'matrix itself'})", init.loc(fl[0].stmt))
         else:
             raise AnalysisError("LUSolver: cannot relate the stored flag to the transposition of the factorised matrix")
-    sv = c.methods["solve"]
+    sv = _meth(prog, c, "solve")
     fs = facts_for(sv)
     # literal module-level constants of the solver's module (e.g. _TRANS_FLAG = "T") may be used in the flag expression
     _MODULE_CONSTS.clear()
@@ -315,7 +323,7 @@ def iterative(prog: Program, rep) -> None:
     for cname, backend in ITERATIVE.items():
         q = f"pygradflow.linear_solver.{'gmres' if backend == 'gmres' else 'minres'}_solver.{cname}"
         c = prog.cls(q)
-        sv = c.methods["solve"]
+        sv = _meth(prog, c, "solve")
         ff = facts_for(sv)
         calls = [n for n in own_nodes(sv.node) if isinstance(n, ast.Call) and (dotted(n.func) or "").endswith("." + backend)]
         if len(calls) != 1:
@@ -340,8 +348,10 @@ def iterative(prog: Program, rep) -> None:
             rep.check(ok and ok2, "transposed-solve-honoured", sv.qualname, short(si.stmt),
                       f"GMRES solves with self.mat.T exactly when trans is set (matrix argument resolves to {sorted(alts)})", sv.loc(call))
         else:
-            init = c.methods["__init__"]
-            asserts = [n for n in own_nodes(init.node) if isinstance(n, ast.Assert) and U(n.test) == "symmetric"]
+            init = _meth(prog, c, "__init__")
+            from .common import ctor_param_attrs
+            sym_names = {"symmetric"} | {a_ for p_, a_ in ctor_param_attrs(prog, init).items() if p_ == "symmetric"}
+            asserts = [n for n in own_nodes(init.node) if isinstance(n, ast.Assert) and U(n.test) in sym_names]
             rep.check(bool(asserts) and mat_t == "self.mat", "transposed-solve-honoured", sv.qualname, "assert symmetric",
                       "MINRES asserts a symmetric matrix at construction, so the transposed system is the same system", init.loc())
         # initial guess: thunk called, result passed as x0
